@@ -40,6 +40,11 @@ type publisher struct {
 	flows  []*pubFlow
 	seen   map[*Peer]int
 	defer_ bool
+	// connections the publisher itself gave up while the system was quiescent:
+	// whatever the broker owed on them at that moment it will never send
+	quietDrop map[*Peer]bool
+	// half-open connections: the publisher is gone, the broker has not noticed
+	abandoned map[*Peer]bool
 }
 
 func (pb *publisher) connect(clean bool) {
@@ -116,8 +121,32 @@ func (pb *publisher) sendPublish(f *pubFlow, dup bool) {
 // sender retransmit: PUBLISH (DUP) while no PUBREC was seen, PUBREL afterwards.
 func (pb *publisher) resume() {
 	if !pb.cur.EOF {
+		// both callers have just run the system to quiescence
+		if pb.quietDrop == nil {
+			pb.quietDrop = map[*Peer]bool{}
+		}
+		pb.quietDrop[pb.cur] = true
 		pb.cur.Drop()
 	}
+	pb.reconnect()
+}
+
+// takeover: the publisher's connection is half-open (the publisher has given
+// it up, nothing tells the broker); it connects again with the same client id
+// while the old broker-side client may still be in the middle of something.
+func (pb *publisher) takeover() {
+	if !pb.cur.EOF {
+		if pb.abandoned == nil {
+			pb.abandoned = map[*Peer]bool{}
+		}
+		pb.abandoned[pb.cur] = true
+		pb.cur.Stalled = true
+		pb.cur.AckMode = 2
+	}
+	pb.reconnect()
+}
+
+func (pb *publisher) reconnect() {
 	pb.cur.Pending = nil
 	pb.connect(false)
 	for _, f := range pb.flows {
@@ -180,6 +209,18 @@ func expandC07(t *testing.T, seed uint64, tier string) []*core.Plan {
 			p.Items = append(p.Items, core.Item{K: "settle"})
 		}
 	}
+	if seed%5 == 3 {
+		// half-open takeover: backend calls are held at the simulator's gate and
+		// released in seeded order while the publisher comes back on a second
+		// connection; no cuts in this class
+		p.SetKnob("gate", 1)
+		p.SetKnob("ackmode", r.Pick(0, 0, 1))
+		k := r.Intn(len(p.Items) + 1)
+		items := append([]core.Item{}, p.Items[:k]...)
+		items = append(items, core.Item{K: "takeover", A: r.Range(0, 6), B: r.Range(2, 12)})
+		p.Items = append(items, p.Items[k:]...)
+		return []*core.Plan{p}
+	}
 	out := []*core.Plan{p}
 	if p.Knob("ackmode", 0) == 2 {
 		return out
@@ -240,6 +281,7 @@ func runC07(t *testing.T, p *core.Plan) *core.Result {
 	cfg.Chunk = p.Knob("chunk", 0)
 	cfg.AckMode = p.Knob("ackmode", 0)
 	cfg.ParPublishes = p.Knob("parpub", 10)
+	cfg.GateBackend = p.Knob("gate", 0) == 1
 	var w *World
 	ptxt := core.Bubble(t, p.Seed, p.Yield, func() {
 		w = NewWorld(cfg, p.Seed, res)
@@ -286,6 +328,13 @@ func runC07(t *testing.T, p *core.Plan) *core.Result {
 					r.ID = packet.ID(it.A)
 					pb.cur.Send(r)
 				}
+			case "takeover":
+				w.Nudge(it.A)
+				pb.absorb()
+				pb.takeover()
+				w.Nudge(it.B)
+				res.Count("half_open_takeovers", 1)
+				step()
 			case "settle":
 				step()
 			}
@@ -354,6 +403,7 @@ func judgeC07(w *World, pb *publisher, obs *Peer, p *core.Plan, res *core.Result
 	ackRel := map[key][]uint64{}
 	accepted := map[int]int{} // tag -> successful Backend.Publish calls
 	entered := map[int]int{}
+	handedAfterAcceptance := map[int]int{}
 	for _, e := range w.Hist {
 		if !isPub[e.C] {
 			continue
@@ -367,7 +417,15 @@ func judgeC07(w *World, pb *publisher, obs *Peer, p *core.Plan, res *core.Result
 			// then not an acceptance)
 			accepted[TagOf(e.M.Payload)]++
 		case e.K == EvBkEnter && e.Call == "Publish" && e.M != nil:
-			entered[TagOf(e.M.Payload)]++
+			tag := TagOf(e.M.Payload)
+			entered[tag]++
+			if accepted[tag] > 0 {
+				handedAfterAcceptance[tag]++
+			} else if entered[tag] > 1 {
+				// the earlier hand-over has not been accepted (yet, or ever): the
+				// broker cannot tell "late" from "never" and retries - legitimate
+				res.Count("rehandover_before_acceptance", 1)
+			}
 		}
 	}
 	released := func(c, tag int, after, before uint64) bool {
@@ -452,8 +510,9 @@ func judgeC07(w *World, pb *publisher, obs *Peer, p *core.Plan, res *core.Result
 				}
 			}
 		}
-		// every PUBREL on a connection that stayed up is answered
-		if !c.EOF && ackMode != 2 {
+		// every PUBREL on a connection that stayed up (or that the publisher gave
+		// up only after everything had come to rest) is answered
+		if (!c.EOF || pb.quietDrop[c]) && !pb.abandoned[c] && ackMode != 2 {
 			for _, r := range rels {
 				// a later PUBREL with the same id supersedes an earlier one only
 				// if it was answered; require one PUBCOMP per PUBREL received
@@ -482,8 +541,8 @@ func judgeC07(w *World, pb *publisher, obs *Peer, p *core.Plan, res *core.Result
 	for _, f := range pb.flows {
 		switch {
 		case f.qos == 2:
-			if accepted[f.tag] > 1 {
-				res.Violate("C07", "C07.exactly-once", "forwarded-twice", fmt.Sprintf("QoS 2 message #%d (id %d) was handed to the backend %d times", f.tag, f.id, accepted[f.tag]))
+			if handedAfterAcceptance[f.tag] > 0 {
+				res.Violate("C07", "C07.exactly-once", "forwarded-twice", fmt.Sprintf("QoS 2 message #%d (id %d) was handed to the backend again after the backend had accepted it (%d hand-overs, %d accepted)", f.tag, f.id, entered[f.tag], accepted[f.tag]))
 			}
 			if obsCount[f.tag] > 1 && ackMode == 0 {
 				res.Violate("C07", "C07.exactly-once", "delivered-twice", fmt.Sprintf("the observer received QoS 2 message #%d %d times as a new delivery", f.tag, obsCount[f.tag]))
